@@ -6,6 +6,10 @@
 
 package repl
 
+// C17, package-wide: a function that takes a sync lock itself has released it
+// again on every normal return path (directly or through a deferred call).
+//@ every-function repl lock-balance
+
 //@ define cstart(start) = start < 0 ? 0 : start
 //@ define cend(end, n) = (end < 0 || n <= end) ? n - 1 : end
 
